@@ -5,6 +5,7 @@ pipeline builds (`RuschmSpec/Loc.lean`), stage by stage.
 import RuschmSpec.Loc
 import RuschmProofs.StoreLemmas
 import RuschmProofs.MacroLemmas
+import RuschmProofs.LibLemmas
 
 namespace Ruschm
 
@@ -983,5 +984,499 @@ theorem unrole_append (a b : List RPos) : unrole (a ++ b) = unrole a ++ unrole b
 
 theorem unrole_subset {a b : List RPos} (h : a ⊆ b) : unrole a ⊆ unrole b := by
   intro l hl; rw [mem_unrole] at hl ⊢; obtain ⟨r, hr⟩ := hl; exact ⟨r, h hr⟩
+
+/-! ## the interpreter around the evaluator -/
+
+namespace InterpLoc
+open Interp EvalLoc
+
+/-- the code an interpreter state holds has its positions in `T` (`stIn_iff`: `st.rlocs ⊆ T`) -/
+structure StIn (T : List RPos) (st : State) : Prop where
+  store : SIn T st.store
+  instances : ∀ p ∈ st.instances, ∀ kv ∈ p.2, VIn T kv.2
+  factories : ∀ p ∈ st.factories, p.2.rlocs ⊆ T
+
+theorem stIn_iff {T : List RPos} {st : State} : StIn T st ↔ st.rlocs ⊆ T := by
+  simp only [State.rlocs, List.append_subset, ← sIn_iff]
+  constructor
+  · intro h
+    refine ⟨h.store, ?_, ?_⟩
+    · intro x hx
+      simp only [List.mem_flatMap] at hx
+      obtain ⟨p, hp, kv, hkv, hx⟩ := hx
+      exact h.instances p hp kv hkv hx
+    · intro x hx
+      simp only [List.mem_flatMap] at hx
+      obtain ⟨p, hp, hx⟩ := hx
+      exact h.factories p hp hx
+  · intro h
+    refine ⟨h.1, fun p hp kv hkv x hx => h.2.1 ?_, fun p hp x hx => h.2.2 ?_⟩
+    · simp only [List.mem_flatMap]; exact ⟨p, hp, kv, hkv, hx⟩
+    · simp only [List.mem_flatMap]; exact ⟨p, hp, hx⟩
+
+/-- an error that arose while reading a library file: the only errors whose position refers to a
+text other than the program (`Lexer::without_locations` strips the tokens, not the lexer's own
+errors) -/
+def LibReadErr (e : SErr) : Prop := ∃ name text, factoryOfText name text = .error e
+
+/-- what a located error of the interpreter is -/
+def IErrOK (T : List RPos) (e : SErr) : Prop :=
+  ∀ l, e.2 = some l →
+    (e.1 = .unbound ∧ ((Role.ident, l) ∈ T ∨ (Role.export, l) ∈ T)) ∨
+    (e.1 = .nonProcedure ∧ (Role.operator, l) ∈ T) ∨
+    ((e.1 = .cyclic ∨ e.1 = .libNotFound) ∧ (Role.libname, l) ∈ T) ∨
+    LibReadErr e
+
+variable {T : List RPos}
+
+theorem iErrOK_none (k : Err) : IErrOK T (k, none) := by intro l h; cases h
+theorem iErrOK_of_errOK {e : SErr} (h : ErrOK T e) : IErrOK T e := by
+  intro l hl
+  rcases h l hl with ⟨h1, h2⟩ | ⟨h1, h2⟩
+  · exact Or.inl ⟨h1, Or.inl h2⟩
+  · exact Or.inr (Or.inl ⟨h1, h2⟩)
+theorem iErrOK_cyclic {loc : Loc} (h : loc.as .libname ⊆ T) : IErrOK T (.cyclic, loc) := by
+  intro l hl; simp only at hl; subst hl
+  exact Or.inr (Or.inr (Or.inl ⟨Or.inl rfl, h (by simp [Loc.as])⟩))
+theorem iErrOK_notFound {loc : Loc} (h : loc.as .libname ⊆ T) : IErrOK T (.libNotFound, loc) := by
+  intro l hl; simp only at hl; subst hl
+  exact Or.inr (Or.inr (Or.inl ⟨Or.inr rfl, h (by simp [Loc.as])⟩))
+theorem iErrOK_export {loc : Loc} (h : loc.as .export ⊆ T) : IErrOK T (.unbound, loc) := by
+  intro l hl; simp only at hl; subst hl
+  exact Or.inl ⟨rfl, Or.inr (h (by simp [Loc.as]))⟩
+
+theorem StIn.with_store {st : State} (h : StIn T st) {σ : Store} (hσ : SIn T σ) :
+    StIn T { st with store := σ } := ⟨hσ, h.instances, h.factories⟩
+
+theorem evalExprOrDef_in {fuel st s ρ r st'} (h : evalExprOrDef fuel st s ρ = (r, st'))
+    (hst : StIn T st) (hs : s.rlocs ⊆ T) : StIn T st' ∧ ∀ e, r = .error e → IErrOK T e := by
+  unfold evalExprOrDef at h
+  split at h
+  · rename_i e
+    simp only [Statement.rlocs] at hs
+    split at h <;> rename_i he <;> cases h
+    · have := (locAt fuel).expr _ _ _ _ _ he hst.store hs
+      exact ⟨hst.with_store this.1, by simp⟩
+    · have := (locAt fuel).expr _ _ _ _ _ he hst.store hs
+      exact ⟨hst.with_store this.1, fun e' he' => by cases he'; exact iErrOK_of_errOK (this.2.2 _ rfl)⟩
+  · rename_i name e l
+    simp only [Statement.rlocs, Def.rlocs, List.append_subset] at hs
+    split at h <;> rename_i he <;> cases h
+    · have := (locAt fuel).expr _ _ _ _ _ he hst.store hs.2
+      exact ⟨hst.with_store (sIn_define this.1 _ _ (this.2.1 _ rfl)), by simp⟩
+    · have := (locAt fuel).expr _ _ _ _ _ he hst.store hs.2
+      exact ⟨hst.with_store this.1, fun e' he' => by cases he'; exact iErrOK_of_errOK (this.2.2 _ rfl)⟩
+  · cases h
+    exact ⟨hst.with_store (sIn_define hst.store _ _ vIn_transformer), by simp⟩
+  · cases h; exact ⟨hst, fun e he => by cases he; exact iErrOK_none _⟩
+
+/-! ### association lists -/
+
+theorem mem_libInsert {α} {l : List (LibName × α)} {k : LibName} {v : α} {p : LibName × α}
+    (h : p ∈ libInsert l k v) : p = (k, v) ∨ p ∈ l := by
+  induction l with
+  | nil => simpa [libInsert] using h
+  | cons q rest ih =>
+    obtain ⟨k', v'⟩ := q
+    simp only [libInsert] at h
+    split at h
+    · simp only [List.mem_cons] at h ⊢
+      rcases h with h | h
+      · exact Or.inl h
+      · exact Or.inr (Or.inr h)
+    · simp only [List.mem_cons] at h ⊢
+      rcases h with h | h
+      · exact Or.inr (Or.inl h)
+      · rcases ih h with h | h
+        · exact Or.inl h
+        · exact Or.inr (Or.inr h)
+
+theorem mem_of_libLookup {α} {l : List (LibName × α)} {k : LibName} {v : α}
+    (h : libLookup l k = some v) : (k, v) ∈ l := by
+  induction l with
+  | nil => simp [libLookup] at h
+  | cons q rest ih =>
+    obtain ⟨k', v'⟩ := q
+    simp only [libLookup] at h
+    split at h
+    · cases h; rename_i hk; subst hk; simp
+    · exact List.mem_cons_of_mem _ (ih h)
+
+theorem mem_assocInsert {α} {l : List (String × α)} {k : String} {v : α} {p : String × α}
+    (h : p ∈ assocInsert l k v) : p = (k, v) ∨ p ∈ l := by
+  induction l with
+  | nil => simpa [assocInsert] using h
+  | cons q rest ih =>
+    obtain ⟨k', v'⟩ := q
+    simp only [assocInsert] at h
+    split at h
+    · simp only [List.mem_cons] at h ⊢
+      rcases h with h | h
+      · exact Or.inl h
+      · exact Or.inr (Or.inr h)
+    · simp only [List.mem_cons] at h ⊢
+      rcases h with h | h
+      · exact Or.inr (Or.inl h)
+      · rcases ih h with h | h
+        · exact Or.inl h
+        · exact Or.inr (Or.inr h)
+
+/-- all values of a list of bindings have their code positions in `T` -/
+def BIn (T : List RPos) (defs : List (String × Value)) : Prop := ∀ kv ∈ defs, VIn T kv.2
+
+theorem bIn_nil : BIn T [] := by simp [BIn]
+
+theorem bIn_assocInsert {acc : List (String × Value)} {k : String} {v : Value} (ha : BIn T acc)
+    (hv : VIn T v) : BIn T (assocInsert acc k v) := by
+  intro kv hkv
+  rcases mem_assocInsert hkv with rfl | h
+  · exact hv
+  · exact ha kv h
+
+theorem bIn_foldl_insert {defs : List (String × Value)} (hd : BIn T defs) :
+    ∀ {acc : List (String × Value)}, BIn T acc →
+      BIn T (defs.foldl (fun a p => assocInsert a p.1 p.2) acc) := by
+  induction defs with
+  | nil => intro acc ha; exact ha
+  | cons p rest ih =>
+    intro acc ha
+    simp only [List.foldl_cons]
+    exact ih (fun kv h => hd kv (List.mem_cons_of_mem _ h))
+      (bIn_assocInsert ha (hd p (List.mem_cons_self ..)))
+
+theorem sIn_foldl_define {defs : List (String × Value)} (hd : BIn T defs) (ρ : Nat) :
+    ∀ {σ : Store}, SIn T σ → SIn T (defs.foldl (fun σ p => σ.define ρ p.1 p.2) σ) := by
+  induction defs with
+  | nil => intro σ h; exact h
+  | cons p rest ih =>
+    intro σ h
+    simp only [List.foldl_cons]
+    exact ih (fun kv h => hd kv (List.mem_cons_of_mem _ h))
+      (sIn_define h ρ p.1 (hd p (List.mem_cons_self ..)))
+
+theorem bIn_filter {defs : List (String × Value)} (hd : BIn T defs) (f : String × Value → Bool) :
+    BIn T (defs.filter f) := fun kv h => hd kv (List.mem_filter.1 h).1
+
+theorem bIn_map {defs : List (String × Value)} (hd : BIn T defs) (g : String → String) :
+    BIn T (defs.map (fun q => (g q.1, q.2))) := by
+  intro kv h
+  simp only [List.mem_map] at h
+  obtain ⟨q, hq, rfl⟩ := h
+  exact hd q hq
+
+/-- the exports of a library are looked up in its frame -/
+theorem exports_in {σ : Store} (hσ : SIn T σ) (ρ : Nat) : ∀ (exports : List ExportSpec)
+    (acc : List (String × Value)), BIn T acc → (∀ s ∈ exports, s.loc.as .export ⊆ T) →
+    ∀ r, exports.foldlM (exportStep (σ.lookup ρ)) acc = r →
+      (∀ defs, r = .ok defs → BIn T defs) ∧ (∀ e, r = .error e → IErrOK T e)
+  | [], acc, ha, _, r, h => by
+    simp only [List.foldlM_nil, pure, Except.pure] at h; subst h
+    exact ⟨fun defs hd => by cases hd; exact ha, by simp⟩
+  | ex :: rest, acc, ha, he, r, h => by
+    simp only [List.foldlM_cons, bind, Except.bind] at h
+    have hex := he ex (List.mem_cons_self ..)
+    have hrest : ∀ s ∈ rest, s.loc.as .export ⊆ T := fun s hs => he s (List.mem_cons_of_mem _ hs)
+    unfold exportStep at h
+    cases hl : σ.lookup ρ ex.internal with
+    | none =>
+      simp only [hl] at h; subst h
+      refine ⟨by simp, fun e he' => ?_⟩
+      cases he'
+      cases ex <;> exact iErrOK_export hex
+    | some v =>
+      simp only [hl] at h
+      exact exports_in hσ ρ rest _ (bIn_assocInsert ha (sIn_lookup hσ hl)) hrest r h
+
+/-- library files are read without positions: the code of a factory made from a file carries none
+(proved as `factoryOfText_unlocated` from the reader/transformer theorems) -/
+def LibClean : Prop :=
+  ∀ name text f, factoryOfText name text = .ok f → f.rlocs = []
+
+/-- the invariant for all functions of the mutual block at one amount of fuel -/
+structure InterpAt (T : List RPos) (fuel : Nat) : Prop where
+  importSet : ∀ {st s r st'}, evalImportSet fuel st s = (r, st') → StIn T st →
+    ImportSet.rlocsList [s] ⊆ T →
+    StIn T st' ∧ (∀ defs, r = .ok defs → BIn T defs) ∧ (∀ e, r = .error e → IErrOK T e)
+  getLibrary : ∀ {st name loc r st'}, getLibrary fuel st name loc = (r, st') → StIn T st →
+    loc.as .libname ⊆ T →
+    StIn T st' ∧ (∀ defs, r = .ok defs → BIn T defs) ∧ (∀ e, r = .error e → IErrOK T e)
+  import_ : ∀ {st sets ρ r st'}, evalImport fuel st sets ρ = (r, st') → StIn T st →
+    ImportSet.rlocsList sets ⊆ T → StIn T st' ∧ (∀ e, r = .error e → IErrOK T e)
+  importSets : ∀ {st sets acc r st'}, evalImportSets fuel st sets acc = (r, st') → StIn T st →
+    ImportSet.rlocsList sets ⊆ T → BIn T acc →
+    StIn T st' ∧ (∀ defs, r = .ok defs → BIn T defs) ∧ (∀ e, r = .error e → IErrOK T e)
+  libraryDef : ∀ {st decls r st'}, evalLibraryDef fuel st decls = (r, st') → StIn T st →
+    LibDecl.rlocsList decls ⊆ T →
+    StIn T st' ∧ (∀ defs, r = .ok defs → BIn T defs) ∧ (∀ e, r = .error e → IErrOK T e)
+  libDecls : ∀ {st ρ decls acc r st'}, evalLibDecls fuel st ρ decls acc = (r, st') → StIn T st →
+    LibDecl.rlocsList decls ⊆ T → (∀ s ∈ acc, s.loc.as .export ⊆ T) →
+    StIn T st' ∧ (∀ ex, r = .ok ex → ∀ s ∈ ex, s.loc.as .export ⊆ T) ∧
+      (∀ e, r = .error e → IErrOK T e)
+  statements : ∀ {st ρ ss r st'}, evalStatements fuel st ρ ss = (r, st') → StIn T st →
+    Statement.rlocsList ss ⊆ T → StIn T st' ∧ (∀ e, r = .error e → IErrOK T e)
+
+theorem interpAt_zero : InterpAt T 0 := by
+  constructor
+  · intro st s r st' h hst _; rw [evalImportSet] at h; cases h
+    exact ⟨hst, by simp, fun e he => by cases he; exact iErrOK_none _⟩
+  · intro st name loc r st' h hst _; rw [Interp.getLibrary] at h; cases h
+    exact ⟨hst, by simp, fun e he => by cases he; exact iErrOK_none _⟩
+  · intro st sets ρ r st' h hst _; rw [evalImport] at h; cases h
+    exact ⟨hst, fun e he => by cases he; exact iErrOK_none _⟩
+  · intro st sets acc r st' h hst _ _; rw [evalImportSets] at h; cases h
+    exact ⟨hst, by simp, fun e he => by cases he; exact iErrOK_none _⟩
+  · intro st decls r st' h hst _; rw [evalLibraryDef] at h; cases h
+    exact ⟨hst, by simp, fun e he => by cases he; exact iErrOK_none _⟩
+  · intro st ρ decls acc r st' h hst _ _; rw [evalLibDecls] at h; cases h
+    exact ⟨hst, by simp, fun e he => by cases he; exact iErrOK_none _⟩
+  · intro st ρ ss r st' h hst _; rw [evalStatements] at h; cases h
+    exact ⟨hst, fun e he => by cases he; exact iErrOK_none _⟩
+
+theorem rlocsList_cons {s : ImportSet} {sets : List ImportSet} :
+    ImportSet.rlocsList (s :: sets) ⊆ T ↔ ImportSet.rlocsList [s] ⊆ T ∧ ImportSet.rlocsList sets ⊆ T := by
+  simp [ImportSet.rlocsList, List.map_append]
+
+theorem importSet_succ {fuel} (ih : InterpAt T fuel) {st s r st'}
+    (h : evalImportSet (fuel + 1) st s = (r, st')) (hst : StIn T st) (hs : ImportSet.rlocsList [s] ⊆ T) :
+    StIn T st' ∧ (∀ defs, r = .ok defs → BIn T defs) ∧ (∀ e, r = .error e → IErrOK T e) := by
+  cases s with
+  | direct name loc =>
+    have hloc : loc.as .libname ⊆ T := by
+      simpa [ImportSet.rlocsList, ImportSet.locs, Loc.as] using hs
+    rw [evalImportSet] at h
+    split at h
+    · cases h; exact ⟨hst, by simp, fun e he => by cases he; exact iErrOK_cyclic hloc⟩
+    · cases h
+      have i := ih.getLibrary (st := { st with inProgress := name :: st.inProgress }) (name := name)
+        (loc := loc) (r := _) (st' := _) rfl ⟨hst.store, hst.instances, hst.factories⟩ hloc
+      exact ⟨⟨i.1.store, i.1.instances, i.1.factories⟩, i.2⟩
+  | only sub ids =>
+    have hs' : ImportSet.rlocsList [sub] ⊆ T := by simpa [ImportSet.rlocsList, ImportSet.locs] using hs
+    rw [evalImportSet] at h
+    split at h <;> rename_i he <;> cases h
+    · have i := ih.importSet he hst hs'
+      exact ⟨i.1, fun d hd => by cases hd; exact bIn_filter (i.2.1 _ rfl) _, by simp⟩
+    · have i := ih.importSet he hst hs'
+      exact ⟨i.1, by simp, fun e he => by cases he; exact i.2.2 _ rfl⟩
+  | except sub ids =>
+    have hs' : ImportSet.rlocsList [sub] ⊆ T := by simpa [ImportSet.rlocsList, ImportSet.locs] using hs
+    rw [evalImportSet] at h
+    split at h <;> rename_i he <;> cases h
+    · have i := ih.importSet he hst hs'
+      exact ⟨i.1, fun d hd => by cases hd; exact bIn_filter (i.2.1 _ rfl) _, by simp⟩
+    · have i := ih.importSet he hst hs'
+      exact ⟨i.1, by simp, fun e he => by cases he; exact i.2.2 _ rfl⟩
+  | «prefix» sub p =>
+    have hs' : ImportSet.rlocsList [sub] ⊆ T := by simpa [ImportSet.rlocsList, ImportSet.locs] using hs
+    rw [evalImportSet] at h
+    split at h <;> rename_i he <;> cases h
+    · have i := ih.importSet he hst hs'
+      exact ⟨i.1, fun d hd => by cases hd; exact bIn_map (i.2.1 _ rfl) _, by simp⟩
+    · have i := ih.importSet he hst hs'
+      exact ⟨i.1, by simp, fun e he => by cases he; exact i.2.2 _ rfl⟩
+  | rename sub pairs =>
+    have hs' : ImportSet.rlocsList [sub] ⊆ T := by simpa [ImportSet.rlocsList, ImportSet.locs] using hs
+    rw [evalImportSet] at h
+    split at h <;> rename_i he <;> cases h
+    · have i := ih.importSet he hst hs'
+      exact ⟨i.1, fun d hd => by cases hd; exact bIn_map (i.2.1 _ rfl) (fun n => (List.lookup n pairs.reverse).getD n), by simp⟩
+    · have i := ih.importSet he hst hs'
+      exact ⟨i.1, by simp, fun e he => by cases he; exact i.2.2 _ rfl⟩
+
+theorem getLibrary_succ (hc : LibClean) {fuel} (ih : InterpAt T fuel) {st name loc r st'}
+    (h : Interp.getLibrary (fuel + 1) st name loc = (r, st')) (hst : StIn T st)
+    (hloc : loc.as .libname ⊆ T) :
+    StIn T st' ∧ (∀ defs, r = .ok defs → BIn T defs) ∧ (∀ e, r = .error e → IErrOK T e) := by
+  rw [getLibrary_succ_eq] at h
+  split at h
+  · rename_i defs hd
+    cases h
+    exact ⟨hst, fun d hd' => by cases hd'; exact hst.instances _ (mem_of_libLookup hd), by simp⟩
+  · -- the factory
+    have hfind : ∀ {rf stf}, findFactory st name loc = (rf, stf) →
+        StIn T stf ∧ (∀ f, rf = .ok f → f.rlocs ⊆ T) ∧ (∀ e, rf = .error e → IErrOK T e) := by
+      intro rf stf hf
+      unfold findFactory at hf
+      split at hf
+      · rename_i f hl; cases hf
+        exact ⟨hst, fun f' hf' => by cases hf'; exact hst.factories _ (mem_of_libLookup hl), by simp⟩
+      · split at hf
+        · cases hf; exact ⟨hst, by simp, fun e he => by cases he; exact iErrOK_notFound hloc⟩
+        · cases hf; exact ⟨hst, by simp, fun e he => by cases he; exact iErrOK_none _⟩
+        · rename_i t _
+          split at hf
+          · rename_i f hft; cases hf
+            have hf0 : f.rlocs ⊆ T := by rw [hc _ _ _ hft]; simp
+            refine ⟨⟨hst.store, hst.instances, ?_⟩, fun f' hf' => by cases hf'; exact hf0, by simp⟩
+            intro p hp
+            rcases mem_libInsert hp with rfl | hp
+            · exact hf0
+            · exact hst.factories p hp
+          · rename_i e hft; cases hf
+            exact ⟨hst, by simp, fun e' he => by
+              cases he; intro l hl; exact Or.inr (Or.inr (Or.inr ⟨_, _, hft⟩))⟩
+    split at h
+    · rename_i e stf hf; cases h
+      have := hfind hf
+      exact ⟨this.1, by simp, fun e' he => by cases he; exact this.2.2 _ rfl⟩
+    · rename_i f stf hf
+      have hF := hfind hf
+      have hf0 := hF.2.1 f rfl
+      unfold instantiate cacheInstance newLibrary at h
+      cases f with
+      | native defs =>
+        simp only at h
+        cases h
+        have hb : BIn T defs := by
+          intro kv hkv x hx
+          apply hf0
+          simp only [Factory.rlocs, List.mem_flatMap]
+          exact ⟨kv, hkv, hx⟩
+        refine ⟨⟨hF.1.store, ?_, hF.1.factories⟩, fun d hd => by cases hd; exact hb, by simp⟩
+        intro p hp
+        rcases mem_libInsert hp with rfl | hp
+        · exact hb
+        · exact hF.1.instances p hp
+      | ast decls =>
+        simp only at h
+        have i := ih.libraryDef (st := stf) (decls := decls) (r := _) (st' := _) rfl hF.1 hf0
+        split at h
+        · rename_i defs hr
+          cases h
+          have hb := i.2.1 defs hr
+          refine ⟨⟨i.1.store, ?_, i.1.factories⟩, fun d hd => by cases hd; exact hb, by simp⟩
+          intro p hp
+          rcases mem_libInsert hp with rfl | hp
+          · exact hb
+          · exact i.1.instances p hp
+        · rename_i e hr
+          cases h
+          exact ⟨i.1, by simp, fun e' he => by cases he; exact i.2.2 _ hr⟩
+
+theorem import_succ {fuel} (ih : InterpAt T fuel) {st sets ρ r st'}
+    (h : evalImport (fuel + 1) st sets ρ = (r, st')) (hst : StIn T st)
+    (hs : ImportSet.rlocsList sets ⊆ T) : StIn T st' ∧ (∀ e, r = .error e → IErrOK T e) := by
+  rw [evalImport] at h
+  split at h <;> rename_i he <;> cases h
+  · have i := ih.importSets he hst hs bIn_nil
+    exact ⟨i.1, fun e he => by cases he; exact i.2.2 _ rfl⟩
+  · have i := ih.importSets he hst hs bIn_nil
+    exact ⟨i.1.with_store (sIn_foldl_define (i.2.1 _ rfl) ρ i.1.store), by simp⟩
+
+theorem importSets_succ {fuel} (ih : InterpAt T fuel) {st sets acc r st'}
+    (h : evalImportSets (fuel + 1) st sets acc = (r, st')) (hst : StIn T st)
+    (hs : ImportSet.rlocsList sets ⊆ T) (ha : BIn T acc) :
+    StIn T st' ∧ (∀ defs, r = .ok defs → BIn T defs) ∧ (∀ e, r = .error e → IErrOK T e) := by
+  cases sets with
+  | nil => rw [evalImportSets] at h; cases h; exact ⟨hst, fun d hd => by cases hd; exact ha, by simp⟩
+  | cons s rest =>
+    rw [rlocsList_cons] at hs
+    rw [evalImportSets] at h
+    split at h <;> rename_i he
+    · cases h
+      have i := ih.importSet he hst hs.1
+      exact ⟨i.1, by simp, fun e he => by cases he; exact i.2.2 _ rfl⟩
+    · have i := ih.importSet he hst hs.1
+      exact ih.importSets h i.1 hs.2 (bIn_foldl_insert (i.2.1 _ rfl) ha)
+
+theorem libraryDef_succ {fuel} (ih : InterpAt T fuel) {st decls r st'}
+    (h : evalLibraryDef (fuel + 1) st decls = (r, st')) (hst : StIn T st)
+    (hd : LibDecl.rlocsList decls ⊆ T) :
+    StIn T st' ∧ (∀ defs, r = .ok defs → BIn T defs) ∧ (∀ e, r = .error e → IErrOK T e) := by
+  rw [evalLibraryDef_succ_eq] at h
+  have hst1 : StIn T { st with store := (st.store.newFrame none).2 } :=
+    hst.with_store (sIn_newFrame hst.store none)
+  split at h <;> rename_i he <;> cases h
+  · have i := ih.libDecls he hst1 hd (by simp)
+    exact ⟨i.1, by simp, fun e he => by cases he; exact i.2.2 _ rfl⟩
+  · have i := ih.libDecls he hst1 hd (by simp)
+    exact ⟨i.1, exports_in i.1.store _ _ [] bIn_nil (i.2.1 _ rfl) _ rfl⟩
+
+theorem libDecls_succ {fuel} (ih : InterpAt T fuel) {st ρ decls acc r st'}
+    (h : evalLibDecls (fuel + 1) st ρ decls acc = (r, st')) (hst : StIn T st)
+    (hd : LibDecl.rlocsList decls ⊆ T) (ha : ∀ s ∈ acc, s.loc.as .export ⊆ T) :
+    StIn T st' ∧ (∀ ex, r = .ok ex → ∀ s ∈ ex, s.loc.as .export ⊆ T) ∧
+      (∀ e, r = .error e → IErrOK T e) := by
+  cases decls with
+  | nil => rw [evalLibDecls] at h; cases h; exact ⟨hst, fun ex he => by cases he; exact ha, by simp⟩
+  | cons d ds =>
+    simp only [LibDecl.rlocsList, List.append_subset] at hd
+    cases d <;> rw [evalLibDecls] at h <;> simp only [LibDecl.rlocs] at hd
+    · split at h <;> rename_i he
+      · cases h
+        have i := ih.import_ he hst hd.1
+        exact ⟨i.1, by simp, fun e he => by cases he; exact i.2 _ rfl⟩
+      · exact ih.libDecls h (ih.import_ he hst hd.1).1 hd.2 ha
+    · refine ih.libDecls h hst hd.2 ?_
+      intro s hs
+      rcases List.mem_append.1 hs with hs | hs
+      · exact ha s hs
+      · intro x hx; apply hd.1; simp only [List.mem_flatMap]; exact ⟨s, hs, hx⟩
+    · split at h <;> rename_i he
+      · cases h
+        have i := ih.statements he hst hd.1
+        exact ⟨i.1, by simp, fun e he => by cases he; exact i.2 _ rfl⟩
+      · exact ih.libDecls h (ih.statements he hst hd.1).1 hd.2 ha
+
+theorem statements_succ {fuel} (ih : InterpAt T fuel) {st ρ ss r st'}
+    (h : evalStatements (fuel + 1) st ρ ss = (r, st')) (hst : StIn T st)
+    (hs : Statement.rlocsList ss ⊆ T) : StIn T st' ∧ (∀ e, r = .error e → IErrOK T e) := by
+  cases ss with
+  | nil => rw [evalStatements] at h; cases h; exact ⟨hst, by simp⟩
+  | cons s rest =>
+    simp only [Statement.rlocsList, List.append_subset] at hs
+    rw [evalStatements] at h
+    split at h <;> rename_i he
+    · cases h
+      have i := evalExprOrDef_in he hst hs.1
+      exact ⟨i.1, fun e he => by cases he; exact i.2 _ rfl⟩
+    · exact ih.statements h (evalExprOrDef_in he hst hs.1).1 hs.2
+
+theorem interpAt (hc : LibClean) : ∀ fuel, InterpAt T fuel
+  | 0 => interpAt_zero
+  | fuel + 1 =>
+    have ih := interpAt hc fuel
+    ⟨importSet_succ ih, getLibrary_succ hc ih, import_succ ih, importSets_succ ih,
+     libraryDef_succ ih, libDecls_succ ih, statements_succ ih⟩
+
+/-- `eval_ast`: the state keeps its invariant; the reported error is an error of the kinds above
+whose missing position is replaced by the statement's -/
+theorem evalAst_in (hc : LibClean) {fuel st s r st'} (h : evalAst fuel st s = (r, st'))
+    (hst : StIn T st) (hs : s.rlocs ⊆ T) :
+    StIn T st' ∧ ∀ k loc, r = .error (k, loc) →
+      ∃ loc0, IErrOK T (k, loc0) ∧ loc = loc0.orElse (fun _ => s.loc) := by
+  unfold evalAst at h
+  generalize hres : (if (!st.importEnd) = true then _ else _ : Except SErr (Option Value) × State) = res at h
+  have key : StIn T res.2 ∧ ∀ e, res.1 = .error e → IErrOK T e ∨ e.2 = s.loc := by
+    subst hres
+    split
+    · split
+      · rename_i sets l
+        simp only [Statement.rlocs, List.append_subset] at hs
+        split <;> rename_i he
+        · exact ⟨((interpAt hc fuel).import_ he hst hs.2).1, by simp⟩
+        · have i := (interpAt hc fuel).import_ he hst hs.2
+          exact ⟨i.1, fun e he => by cases he; exact Or.inl (i.2 _ rfl)⟩
+      · exact ⟨hst, fun e he => by cases he; exact Or.inr rfl⟩
+      · have i := evalExprOrDef_in (fuel := fuel) (st := { st with importEnd := true }) (s := _)
+          (ρ := st.env) (r := _) (st' := _) rfl ⟨hst.store, hst.instances, hst.factories⟩ hs
+        exact ⟨i.1, fun e he => Or.inl (i.2 e he)⟩
+    · have i := evalExprOrDef_in (fuel := fuel) (st := st) (s := s) (ρ := st.env) (r := _) (st' := _)
+        rfl hst hs
+      exact ⟨i.1, fun e he => Or.inl (i.2 e he)⟩
+  obtain ⟨r0, st0⟩ := res
+  simp only at h key
+  split at h <;> cases h
+  · exact ⟨key.1, by simp⟩
+  · rename_i e loc
+    refine ⟨key.1, fun k loc' hk => ?_⟩
+    cases hk
+    rcases key.2 _ rfl with hk | hk
+    · exact ⟨loc, hk, rfl⟩
+    · simp only at hk; subst hk
+      refine ⟨none, iErrOK_none _, ?_⟩
+      cases s.loc <;> rfl
+
+end InterpLoc
 
 end Ruschm
